@@ -201,16 +201,16 @@ impl BlockDir {
         let bytes = self.get_block_content(&address.hash, monitor).await?;
         let len = address.len as usize;
         let start = address.start as usize;
-        let end = start + len;
         let actual_len = bytes.len();
-        if end > actual_len {
-            return Err(Error::BlockTooShort {
+        // An address read from a damaged index can have a start and length whose sum overflows.
+        match start.checked_add(len) {
+            Some(end) if end <= actual_len => Ok(bytes.slice(start..end)),
+            _ => Err(Error::BlockTooShort {
                 hash: address.hash.clone(),
                 actual_len,
                 referenced_len: len,
-            });
+            }),
         }
-        Ok(bytes.slice(start..end))
     }
 
     /// Return the entire contents of the block.
